@@ -10,3 +10,40 @@ func mathModRef(x, y float64) float64   { return math.Mod(x, y) }
 func mathPowRef(x, y float64) float64   { return math.Pow(x, y) }
 func mathAtan2Ref(x, y float64) float64 { return math.Atan2(x, y) }
 func mathSqrtRef(x float64) float64     { return math.Sqrt(x) }
+func mathInfRef(sign int) float64        { return math.Inf(sign) }
+
+// mathLdexpRef is ldexp by its definition, in integer arithmetic on the IEEE fields (no floating-point
+// operation at all): x = (-1)^s * M * 2^(ex-1075) with M the 53-bit significand of a normal x; the result is
+// M * 2^(ex+e-1075) rounded once, to nearest even, into the format.  Subnormal x is outside this reference
+// (ok = false); it is covered by the frexp/ldexp recomposition law.
+func mathLdexpRef(x float64, e int) (r float64, ok bool) {
+	if x == 0 || x != x || x > math.MaxFloat64 || x < -math.MaxFloat64 {
+		return x, true
+	}
+	b := math.Float64bits(x)
+	sign := b & (1 << 63)
+	ex := int((b >> 52) & 0x7ff)
+	man := b & (1<<52 - 1)
+	if ex == 0 {
+		return 0, false
+	}
+	ne := ex + e
+	if ne >= 2047 {
+		return math.Float64frombits(sign | 0x7ff<<52), true
+	}
+	if ne >= 1 {
+		return math.Float64frombits(sign | uint64(ne)<<52 | man), true
+	}
+	M := man | 1<<52
+	s := uint(1 - ne)
+	if s > 54 {
+		return math.Float64frombits(sign), true
+	}
+	q := M >> s
+	rem := M & (1<<s - 1)
+	half := uint64(1) << (s - 1)
+	if rem > half || (rem == half && q&1 == 1) {
+		q++
+	}
+	return math.Float64frombits(sign | q), true
+}
